@@ -613,7 +613,8 @@ pub fn oracle_sha256tree(rng: &mut Rng, n: usize, _tier: &str) -> OracleReport {
             }
             _ => trees::random_tree(rng, 40, 200),
         };
-        for flags in [0x400u32, 0x400 | NEW_COST_MODEL] {
+        let extra = 0x400 | (random_flags(rng) & !NO_UNKNOWN_OPS);
+        for flags in [0x400u32, 0x400 | NEW_COST_MODEL, 0x400 | LIMITS, 0x400 | 0x217 | LIMITS, extra] {
             rep.evaluations += 1;
             if seen.insert((trees::to_hex(&t), flags)) {
                 rep.nontrivial += 1;
@@ -734,7 +735,7 @@ pub fn generate_run_sha256tree(rng: &mut Rng, n: usize) -> Vec<String> {
             6 => T::Atom(rng.bytes(4096)),
             _ => trees::random_tree(rng, 12, 60),
         };
-        for flags in [0x400u32, 0x400 | NEW_COST_MODEL, 0] {
+        for flags in [0x400u32, 0x400 | NEW_COST_MODEL, 0, 0x400 | LIMITS, 0x400 | DISABLE_OP | LIMITS] {
             let native = call(63, vec![quote(t.clone())]);
             for (p, e) in [(&prog, &t), (&native, &T::nil())] {
                 let o = run_full("chia", flags, 0, p, e, "");
